@@ -375,9 +375,25 @@ static void sig_followups(KSI_CTX *ctx, int m, KSI_Signature *sig, int variant, 
 }
 
 /* ------------------------------------------------------------------ entry points */
+/* the same bytes through the entry points that read a file themselves (KSI_Signature_fromFile, KSI_PublicationsFile_fromFile): an anonymous memory file */
+static int g_file_fd = -1;
+static const char *as_file(const unsigned char *p, size_t n) {
+	static char path[64];
+	if (g_file_fd < 0) { g_file_fd = memfd_create("c12-input", 0); if (g_file_fd < 0) return NULL; }
+	if (ftruncate(g_file_fd, 0) != 0 || pwrite(g_file_fd, p, n, 0) != (ssize_t)n) return NULL;
+	snprintf(path, sizeof path, "/proc/self/fd/%d", g_file_fd);
+	return path;
+}
+
 static void e_sig(KSI_CTX *ctx, int m, const unsigned char *p, size_t n, int variant, uint64_t h, int empty_policy) {
-	KSI_Signature *sig = NULL; int res;
-	if (empty_policy) res = KSI_Signature_parseWithPolicy(ctx, p, n, KSI_VERIFICATION_POLICY_EMPTY, NULL, &sig);
+	KSI_Signature *sig = NULL; int res; const char *fn;
+	if ((h >> 29) % 4 == 0 && (fn = as_file(p, n)) != NULL) {
+		c12_stat[ST_FROM_FILE]++;
+		res = empty_policy ? KSI_Signature_fromFileWithPolicy(ctx, fn, KSI_VERIFICATION_POLICY_EMPTY, NULL, &sig) : KSI_Signature_fromFile(ctx, fn, &sig);
+		if (res == KSI_OK && sig != NULL) c12_stat[ST_FROM_FILE_OK]++;
+		else if (res != KSI_OK && sig != NULL) oracle_fail("fromFile:object-on-error", "signature object returned together with status 0x%x", res);
+	}
+	else if (empty_policy) res = KSI_Signature_parseWithPolicy(ctx, p, n, KSI_VERIFICATION_POLICY_EMPTY, NULL, &sig);
 	else res = KSI_Signature_parse(ctx, p, n, &sig);
 	if (res == KSI_OK && sig != NULL) { c12_stat[ST_OK + (empty_policy ? E_SIG_EMPTY : E_SIG)]++; sig_followups(ctx, m, sig, variant, &h, 0); }
 	else see_errors(ctx, &h);
@@ -544,7 +560,9 @@ static void e_pubfile(KSI_CTX *ctx, int m, const unsigned char *p, size_t n, int
 	const int pkiv = 0;
 #endif
 
-	res = KSI_PublicationsFile_parse(ctx, p, n, &pf);
+	{ const char *fn;
+	  if ((h >> 29) % 4 == 0 && (fn = as_file(p, n)) != NULL) { c12_stat[ST_FROM_FILE]++; res = KSI_PublicationsFile_fromFile(ctx, fn, &pf); if (res == KSI_OK && pf) c12_stat[ST_FROM_FILE_OK]++; }
+	  else res = KSI_PublicationsFile_parse(ctx, p, n, &pf); }
 	if (res == KSI_OK && pf != NULL) {
 		KSI_PublicationsHeader *hd = NULL; KSI_LIST(KSI_CertificateRecord) *certs = NULL; KSI_LIST(KSI_PublicationRecord) *pubs = NULL; KSI_PKISignature *ps = NULL; size_t sdl = 0, i;
 		KSI_OctetString *firstId = NULL; KSI_Integer *firstTime = NULL; char *firstStr = NULL; KSI_PublicationRecord *firstRec = NULL;
